@@ -192,4 +192,70 @@ theorem conj_diag_mul (q : Quat K) (hq : UnitQ q) (d e : V3 K) :
   simp only [m3_mul_assoc]
   rw [transpose_mul_cancel sq q hq, ← m3_mul_assoc sq (@M3.diag K (fieldNum K sq) d), diag_mul_diag]
 
+/-! ### 3-D `Sum`: fold lemmas -/
+def mzero : M3 K := ⟨⟨0, 0, 0⟩, ⟨0, 0, 0⟩, ⟨0, 0, 0⟩⟩
+/-- entrywise sum of a list of matrices -/
+def msum (l : List (M3 K)) : M3 K := l.foldr madd mzero
+def totMass3 (ps : List (MP3 K)) : K := (ps.map massOf3).sum
+def totF3 (ps : List (MP3 K)) : V3 K :=
+  ⟨(ps.map fun a => a.com.x * massOf3 a).sum, (ps.map fun a => a.com.y * massOf3 a).sum, (ps.map fun a => a.com.z * massOf3 a).sum⟩
+/-- second-moment (inertia) tensor of one member about the ORIGIN: own tensor + Steiner term -/
+def originTensor (a : MP3 K) : M3 K := madd (@MP3.reconstruct K (fieldNum K sq) a) (steiner3 (massOf3 a) a.com)
+def totTensor3 (ps : List (MP3 K)) : M3 K := msum (ps.map (originTensor sq))
+
+/-- the correction between "about `c`" and "about the origin" for a family with total mass `M` and first moment `F` -/
+def gShift (M : K) (F c : V3 K) : M3 K :=
+  let n := c.x * c.x + c.y * c.y + c.z * c.z
+  let cf := c.x * F.x + c.y * F.y + c.z * F.z
+  ⟨⟨M * (n - c.x * c.x) - 2 * cf + 2 * c.x * F.x, M * (0 - c.x * c.y) + c.x * F.y + F.x * c.y, M * (0 - c.x * c.z) + c.x * F.z + F.x * c.z⟩,
+   ⟨M * (0 - c.y * c.x) + c.y * F.x + F.y * c.x, M * (n - c.y * c.y) - 2 * cf + 2 * c.y * F.y, M * (0 - c.y * c.z) + c.y * F.z + F.y * c.z⟩,
+   ⟨M * (0 - c.z * c.x) + c.z * F.x + F.z * c.x, M * (0 - c.z * c.y) + c.z * F.y + F.z * c.y, M * (n - c.z * c.z) - 2 * cf + 2 * c.z * F.z⟩⟩
+
+theorem foldl_sumAcc3 (ps : List (MP3 K)) (acc : K × V3 K) :
+    (ps.foldl (@MP3.sumAcc K (fieldNum K sq)) acc).1 = acc.1 + totMass3 ps ∧
+    (ps.foldl (@MP3.sumAcc K (fieldNum K sq)) acc).2.x = acc.2.x + (totF3 ps).x ∧
+    (ps.foldl (@MP3.sumAcc K (fieldNum K sq)) acc).2.y = acc.2.y + (totF3 ps).y ∧
+    (ps.foldl (@MP3.sumAcc K (fieldNum K sq)) acc).2.z = acc.2.z + (totF3 ps).z := by
+  induction ps generalizing acc with
+  | nil => simp [totMass3, totF3]
+  | cons a l ih =>
+    simp only [List.foldl_cons, totMass3, totF3, List.map_cons, List.sum_cons]
+    obtain ⟨h1, h2, h3, h4⟩ := ih (@MP3.sumAcc K (fieldNum K sq) acc a)
+    simp only [totMass3, totF3] at h1 h2 h3 h4
+    rw [h1, h2, h3, h4]
+    simp only [MP3.sumAcc, inv_spec, V3.add, V3.smul, massOf3]
+    refine ⟨by ring, by ring, by ring, by ring⟩
+
+theorem foldl_shifted3 (ps : List (MP3 K)) (tc : V3 K) (Z : M3 K) :
+    ps.foldl (fun ti p => @M3.add K (fieldNum K sq) ti (@MP3.shifted K (fieldNum K sq) p (@V3.sub K (fieldNum K sq) tc p.com))) Z
+      = madd Z (msum (ps.map fun p => madd (@MP3.reconstruct K (fieldNum K sq) p)
+          (steiner3 (massOf3 p) ⟨tc.x - p.com.x, tc.y - p.com.y, tc.z - p.com.z⟩))) := by
+  induction ps generalizing Z with
+  | nil =>
+    rcases Z with ⟨⟨a00, a01, a02⟩, ⟨a10, a11, a12⟩, ⟨a20, a21, a22⟩⟩
+    simp [msum, madd, mzero]
+  | cons a l ih =>
+    simp only [List.foldl_cons, List.map_cons, msum, List.foldr_cons]
+    rw [ih]
+    simp only [shifted3_spec, V3.sub, msum, madd, M3.add, V3.add]
+    congr 1 <;> congr 1 <;> ring
+
+theorem msum_shift (ps : List (MP3 K)) (c : V3 K) :
+    msum (ps.map fun p => madd (@MP3.reconstruct K (fieldNum K sq) p)
+        (steiner3 (massOf3 p) ⟨c.x - p.com.x, c.y - p.com.y, c.z - p.com.z⟩))
+      = madd (totTensor3 sq ps) (gShift (totMass3 ps) (totF3 ps) c) := by
+  induction ps with
+  | nil => simp [msum, madd, mzero, totTensor3, gShift, totMass3, totF3]
+  | cons a l ih =>
+    simp only [List.map_cons, msum, List.foldr_cons, totTensor3, totMass3, totF3, List.sum_cons] at ih ⊢
+    rw [ih]
+    simp only [madd, steiner3, gShift, originTensor]
+    congr 1 <;> congr 1 <;> ring
+
+theorem gShift_com (M : K) (F c : V3 K) (hx : F.x = c.x * M) (hy : F.y = c.y * M) (hz : F.z = c.z * M) (T : M3 K) :
+    madd (madd mzero (madd T (gShift M F c))) (steiner3 M c) = T := by
+  rcases T with ⟨⟨a00, a01, a02⟩, ⟨a10, a11, a12⟩, ⟨a20, a21, a22⟩⟩
+  simp only [madd, mzero, gShift, steiner3, hx, hy, hz]
+  congr 1 <;> congr 1 <;> ring
+
 end C13
